@@ -254,6 +254,14 @@ Definition secure_b (r : role) (e : event) : bool :=
   | Wrap c ss => negb (role_eqb (owner_of c) r) || (ctx_eqb c (server_ctx_of r) && ss)
   end.
 
+(* the party an event belongs to *)
+Definition by_role (r : role) (e : event) : bool :=
+  match e with
+  | Adv _ b _ => role_eqb b r
+  | Create r' _ _ | Conn r' _ _ | Attempt r' _ _ _ => role_eqb r' r
+  | Wrap c _ => role_eqb (owner_of c) r
+  end.
+
 (* the same statement as a proposition (Proofs.v: secure_b r e = true <-> secure r e) *)
 Definition secure (r : role) (e : event) : Prop :=
   match e with
@@ -358,14 +366,16 @@ Definition x_given (c : scase) : addr :=
 
 Definition sys := (list psub * cstate)%type.
 
+Definition pfold (pc : pconf) (l : list pin) (acc : list psub * list event) : list psub * list event :=
+  fold_left (fun acc i => let '(st, ev) := acc in let '(st', e) := pstep pc st i in (st', ev ++ e)) l acc.
+Definition cfold (fixed : bool) (cc : cconf) (l : list cin) (acc : cstate * list event) : cstate * list event :=
+  fold_left (fun acc i => let '(st, ev) := acc in let '(st', e, _) := cstep fixed cc st i in (st', ev ++ e)) l acc.
+
 Definition both (pc : pconf) (fixed : bool) (cc : cconf) (s : sys) (pi : list pin) (ci : list cin)
   : sys * list event :=
-  let '(ps, cs) := s in
-  let '(cs', ev_c) := fold_left (fun acc i => let '(st, ev) := acc in
-                                              let '(st', e, _) := cstep fixed cc st i in (st', ev ++ e)) ci (cs, []) in
-  let '(ps', ev_p) := fold_left (fun acc i => let '(st, ev) := acc in
-                                              let '(st', e) := pstep pc st i in (st', ev ++ e)) pi (ps, []) in
-  ((ps', cs'), ev_c ++ ev_p).
+  let cr := cfold fixed cc ci (snd s, []) in
+  let pr := pfold pc pi (fst s, []) in
+  ((fst pr, fst cr), snd cr ++ snd pr).
 
 (* one scenario operation: what the consumer does and what the (honest) provider does in reaction; the provider
    only sees a request when the consumer's connection got through *)
@@ -392,45 +402,50 @@ Definition start_code (e : option cerr) : Z :=
   match e with None => 0 | Some ESsl => 1 | Some ENotConnected => 2 | Some EUsage => 3 end.
 Definition isc_code (i : option bool) : Z := match i with None => 0 | Some false => 1 | Some true => 2 end.
 
-(* statuses: [ctor; start; is_ssl_connection; provider port TLS; consumer sink port TLS (2 = not started);
-              provider events secure; consumer events secure]  and the set of event codes *)
-Definition run_case (c : scase) : list Z * list Z :=
+Definition sfold (c : scase) (l : list sop) (acc : sys * list event) : sys * list event :=
+  fold_left (fun acc o => let '(st, ev) := acc in let '(st', e) := sys_step c st o in (st', ev ++ e)) l acc.
+
+(* result of the constructor / start_all (None = the constructor raised ValueError), final consumer state and all
+   events of the scenario *)
+Definition run_events (c : scase) : option (option cerr * cstate) * list event :=
   let pc := s_pc c in let cc := s_cc c in let fx := s_fixed c in
-  let '(ps0, ev0) := fold_left (fun acc i => let '(st, ev) := acc in
-                                             let '(st', e) := pstep pc st i in (st', ev ++ e))
-                               [PStart; PPublish] ([], []) in
+  let p0 := pfold pc [PStart; PPublish] ([], []) in
   let ptls := p_listen_tls pc in
   (* SdcConsumer.__init__ raises ValueError for an address that does not start with 'http' and for
      force_ssl_connect without a container *)
   match (match s_x c with XBad => None | _ => c_ctor (c_mode cc) end) with
-  | None => ([1; 9; 3; zb ptls; 2; zb (forallb (secure_b RP) ev0); 1], map code_event ev0)
+  | None => (None, snd p0)
   | Some i0 =>
       let hosted := repeat (p_base pc) n_hosted in
       let '(cs1, ev1, err) := cstep fx cc (c_init i0) (CStart (x_given c) ptls hosted) in
       (* the provider answers the metadata requests once the connection got through *)
       let connected := match err with Some ESsl | Some ENotConnected => false | _ => true end in
-      let '(ps1, ev1p) := if connected
-                          then fold_left (fun acc i => let '(st, ev) := acc in
-                                                       let '(st', e) := pstep pc st i in (st', ev ++ e))
-                                         [PGetMetadata; PHostedMetadata] (ps0, [])
-                          else (ps0, []) in
+      let p1 := if connected then pfold pc [PGetMetadata; PHostedMetadata] (fst p0, []) else (fst p0, []) in
       (* start_all subscribes at every hosted service *)
-      let '(s2, ev2) := if running cs1 then sys_step c (ps1, cs1) OResubscribe else ((ps1, cs1), []) in
-      let '(s3, ev3) := fold_left (fun acc o => let '(st, ev) := acc in
-                                                let '(st', e) := sys_step c st o in (st', ev ++ e))
-                                  (s_ops c) (s2, []) in
-      let cs3 := snd s3 in
+      let r2 := if running cs1 then sys_step c (fst p1, cs1) OResubscribe else ((fst p1, cs1), []) in
+      let r3 := sfold c (s_ops c) (fst r2, []) in
+      let cs3 := snd (fst r3) in
       let ev4 := if running cs3 && s_provider_first c
-                 then snd (both pc fx cc s3 [PEnd 0 (c_listen_tls cc (isc cs3))] [])
+                 then snd (both pc fx cc (fst r3) [PEnd 0 (c_listen_tls cc (isc cs3))] [])
                  else if running cs3
-                 then snd (both pc fx cc s3 [] [CRequest (p_base pc) ptls])      (* unsubscribe_all *)
+                 then snd (both pc fx cc (fst r3) [] [CRequest (p_base pc) ptls])      (* unsubscribe_all *)
                  else [] in
-      let evs := ev0 ++ ev1 ++ ev1p ++ ev2 ++ ev3 ++ ev4 in
-      ([0; start_code err; isc_code (isc cs3); zb ptls;
-        if running cs3 then zb (c_listen_tls cc (isc cs3)) else 2;
-        zb (forallb (secure_b RP) evs); zb (forallb (secure_b RC) evs)],
-       map code_event evs)
+      (Some (err, cs3), snd p0 ++ ev1 ++ snd p1 ++ snd r2 ++ snd r3 ++ ev4)
   end.
+
+(* statuses [ctor; start; is_ssl_connection; provider port TLS; sink port TLS (2 = not started); provider events
+   secure; consumer events secure] and the event codes *)
+Definition run_case (c : scase) : list Z * list Z :=
+  let cc := s_cc c in
+  let ptls := p_listen_tls (s_pc c) in
+  let '(r, evs) := run_events c in
+  (match r with
+   | None => [1; 9; 3; zb ptls; 2; zb (forallb (secure_b RP) evs); 1]
+   | Some (err, cs3) =>
+       [0; start_code err; isc_code (isc cs3); zb ptls;
+        if running cs3 then zb (c_listen_tls cc (isc cs3)) else 2;
+        zb (forallb (secure_b RP) evs); zb (forallb (secure_b RC) evs)]
+   end, map code_event evs).
 
 Definition trace_eqb (a b : list Z * list Z) : bool :=
   zlist_eqb (fst a) (fst b) && set_eqb (snd a) (snd b).
